@@ -75,9 +75,15 @@ def build_pool():
     obj2 = with_layout(A, {"a": 2, "b": [1]}, {"k": 2}, {"a": [1, 3]})
     # texts whose similarity ratio depends on argument order (line swap)
     sw1, sw2 = copy.deepcopy(A), copy.deepcopy(A)
-    lines = ["alpha = 1\n", "beta = 2\n", "gamma = alpha + beta\n", "print(gamma)\n", "delta = gamma * 2\n", "print(delta)\n"]
-    sw1.cells[0].source = "".join(lines)
-    sw2.cells[0].source = "".join(lines[3:] + lines[:3])
+    # difflib's ratio is not symmetric: ratio(S1, S2) = 0.39 (dissimilar) but ratio(S2, S1) = 0.77 (similar)
+    S1 = "import os\nprint(x, y)\nx = compute(1)\nimport sys\nprint(result)\n"
+    S2 = "import sys\nx = compute(1)\nprint(x, y)\nimport os\nprint(result)\n"
+    import difflib
+    r12 = difflib.SequenceMatcher(None, S1, S2, autojunk=False).ratio()
+    r21 = difflib.SequenceMatcher(None, S2, S1, autojunk=False).ratio()
+    assert r12 < 0.7 < r21, (r12, r21)
+    sw1.cells[0].source = S1
+    sw2.cells[0].source = S2
     sw1.cells[0].pop("id", None), sw2.cells[0].pop("id", None)
     sw1.cells[0]["id"] = "x1"
     sw2.cells[0]["id"] = "x2"
